@@ -69,7 +69,7 @@ check("C14", "exploration",
       "DESIGN.md §3 C14", engine="engine/common + tools/astreg + sqlgen")
 check("C15", "exploration",
       "bounded exhaustive enumeration of statements whose generator records every identifier with its role; set-equality oracle",
-      "Every SELECT/DML/MERGE statement of the model grammar: ExtractTables/TablesQualified/Columns/ColumnsQualified/Functions/Metadata must equal the sets of names the generator placed in table / column / function positions, duplicate-free, identical across layouts, also for chains of up to 500 operands and sub-queries nested 99 deep; a missing name is attributed to the tree position where it is written.",
+      "Every SELECT/DML/MERGE statement of the model grammar: ExtractTables/TablesQualified/Columns/ColumnsQualified/Functions/Metadata must equal the sets of names the generator placed in table / column / function positions, duplicate-free, identical across layouts, also for chains of up to 500 operands and sub-queries nested 99 deep, and for every representative statement extracted after another one was parsed and released (recycled nodes); a missing name is attributed to the tree position where it is written.",
       "Trusted: disjoint name families per role; unqualified table variant compared on the last component.",
       "DESIGN.md §3 C15")
 check("C17", "exploration",
